@@ -220,6 +220,60 @@ class TermBuilder:
             cache[n.id] = self.cfg.reachable_from(n)
         return cache[n.id]
 
+    def _fwd(self, n: Node) -> Set[int]:
+        """Nodes reachable from n without taking a back edge (u -> v with v dominating u)."""
+        cache = self.__dict__.setdefault("_fwd_cache", {})
+        if n.id not in cache:
+            seen: Set[int] = set()
+            st = [n]
+            first = True
+            while st:
+                u = st.pop()
+                if u.id in seen and not first:
+                    continue
+                if not first:
+                    seen.add(u.id)
+                first = False
+                for v in u.succ:
+                    if self.cfg.dominates(v, u):
+                        continue  # back edge
+                    if v.id not in seen:
+                        st.append(v)
+            cache[n.id] = seen
+        return cache[n.id]
+
+    def _loops(self) -> List[Set[int]]:
+        """Natural loops (node-id sets), one per back edge u -> h (h dominates u)."""
+        cache = self.__dict__.get("_loops_cache")
+        if cache is None:
+            by_header: Dict[int, Set[int]] = {}
+            for u in self.cfg.live_nodes():
+                for h in u.succ:
+                    if self.cfg.dominates(h, u):
+                        body = by_header.setdefault(h.id, {h.id})
+                        body.add(u.id)
+                        st = [u]
+                        while st:
+                            x = st.pop()
+                            if x is h:
+                                continue
+                            for p in x.pred:
+                                if p.id not in body:
+                                    body.add(p.id)
+                                    st.append(p)
+            cache = list(by_header.values())
+            self.__dict__["_loops_cache"] = cache
+        return cache
+
+    def _loop_carried(self, d: Node, at: Node) -> bool:
+        """Does the value defined at d reach `at` only around a loop back edge?"""
+        if d is at:
+            return any(d.id in L for L in self._loops())
+        common = [L for L in self._loops() if d.id in L and at.id in L]
+        if not common:
+            return False
+        return at.id not in self._fwd(d)
+
     def in_nograd(self, node: Node) -> bool:
         """Is the CFG node lexically inside `with torch.no_grad()` (or inference_mode)?"""
         s = node.stmt if node.stmt is not None else node.ast
@@ -415,7 +469,7 @@ class TermBuilder:
         alts: List[Poly] = []
         for d in defs:
             tag = (name, d.id)
-            if tag in _seen or (d.kind != "entry" and d.id in self._reach(at) and (d is at or not self.cfg.dominates(d, at))):
+            if tag in _seen or (d.kind != "entry" and self._loop_carried(d, at)):
                 # loop-carried definition: canonical recursion atom (not unrolled)
                 alts.append(self.mk(f"rec:{name}@{self.fn.qualname}", "rec", [f"rec:{name}"], e, name=name))
                 continue
@@ -471,7 +525,7 @@ class TermBuilder:
         alts = []
         for dd in defs:
             tag = (name, dd.id)
-            if tag in _seen or dd is d or (dd.kind != "entry" and dd.id in self._reach(d) and not self.cfg.dominates(dd, d)):
+            if tag in _seen or dd is d or (dd.kind != "entry" and self._loop_carried(dd, d)):
                 alts.append(self.mk(f"rec:{name}@{self.fn.qualname}", "rec", [f"rec:{name}"], None, name=name))
                 continue
             fake = ast.Name(id=name, ctx=ast.Load())
